@@ -155,6 +155,13 @@ def trigStep (e : TrigEng) (t : Tokens) (impl : Option String) : TrigEng × Step
     if !e.active then (e, { model := "no-engine" }) else
     let e1 := { e with g := e.g.step .startClose }
     finish (fun cf => closure cf 64 e1) (fun _ => "") (fun _ => [])
+  | "procclose" =>
+    -- the processor ends the run with shutdownAppHarvest: Close runs in its own goroutine, the call returns at once
+    if !e.active then (e, { model := "no-engine" }) else
+    let e1 := { e with g := e.g.step .startClose }
+    finish (fun cf => closure cf 64 e1) (fun _ => " blocked=0") (fun line =>
+      if kvGet (tokenize line) "blocked" == some "1" then
+        ["C12 stop: ending the run blocked the processor (shutdownAppHarvest did not return while timer ticks were in flight)"] else [])
   | "drain" =>
     if !e.active then (e, { model := "no-engine" }) else
     -- the processor keeps receiving until the forwarder has nothing more; every member that comes back to its select with
